@@ -108,6 +108,7 @@ fn world(k: usize, scale: usize, thorough: bool, extra: &[u128]) -> (Vec<Act>, P
             Act::Swap(false, 100_000),
             Act::Inc(0, 10_000, 500_000),
             Act::Inc(0, 0, 200_000),
+            Act::Inc(0, 5_000, 0),
             Act::Inc(1, 30_000, 2_000_000),
             Act::Inc(2, 200_000, 1_000_000),
             Act::Dec(0, 0, 0),
@@ -116,6 +117,7 @@ fn world(k: usize, scale: usize, thorough: bool, extra: &[u128]) -> (Vec<Act>, P
             Act::Dec(1, 3, 0),
             Act::Dec(2, 0, 1_000),
             Act::Dec(2, 1, 0),
+            Act::Dec(2, 4, 1_000),
             Act::Liq(0),
             Act::Liq(1),
             Act::Liq(2),
@@ -148,6 +150,7 @@ fn world(k: usize, scale: usize, thorough: bool, extra: &[u128]) -> (Vec<Act>, P
             Act::Swap(false, 100_000),
             Act::Inc(0, 10, 10_000),
             Act::Inc(0, 0, 10_000),
+            Act::Inc(1, 2, 0),
             Act::Inc(1, 5, 20_000),
             Act::Inc(2, 30_000, 15_000),
             Act::Dec(0, 0, 0),
@@ -156,6 +159,7 @@ fn world(k: usize, scale: usize, thorough: bool, extra: &[u128]) -> (Vec<Act>, P
             Act::Dec(1, 2, 0),
             Act::Dec(2, 0, 100),
             Act::Dec(2, 1, 0),
+            Act::Dec(2, 4, 50),
             Act::Liq(0),
             Act::Liq(1),
             Act::Liq(2),
